@@ -47,9 +47,9 @@ type c20Req struct {
 	Body   string `json:"body"`
 	// Pre: the level is changed directly (SetLevel, or the text path when the level is a named one) just before this request;
 	// the endpoint must report and act on the level in force, however it got there
-	Pre *int `json:"pre,omitempty"`
-	Query  string `json:"query"`
-	Dec    c20Dec `json:"dec"`
+	Pre   *int   `json:"pre,omitempty"`
+	Query string `json:"query"`
+	Dec   c20Dec `json:"dec"`
 }
 
 type c20Op struct {
